@@ -5,14 +5,54 @@ V = os.path.dirname(os.path.dirname(os.path.abspath(__file__)))
 ALL = ["C%02d" % i for i in range(1, 21)]
 
 # id -> (technique, level text, level note, design ref)
+NOTE_COMMON = ("Trusted: Coq 8.16.1 kernel + vm_compute; the hand-written Gallina model (tied to /repo by this run's correspondence: sampled, not exhaustive); "
+               "the python harness and literal encoder; see evidence trusted_base for the per-property list. ")
 CLAIMED = {
+ "C01": ("Coq proof: exact model = firmware recurrence for every tick count (induction) + correspondence",
+         "Theorem C01_exact: for all integers and every T>=1 the exact-arithmetic model of move_dist_lt equals the tick-by-tick firmware recurrence (both accumulator forms, "
+         "both clear values), remainder in [0,2^31); aliases equal. The model is tied to ebb_calc.py/ebb_motion.py by running both on firmware-valid inputs (T up to 2^32-1) "
+         "under varying ambient mpmath precision; every implementation output is also checked against the proved O(1) closed form of the recurrence.",
+         NOTE_COMMON + "Rounding of mpmath (30 digits) and of the float quotient accel/2 is exact on the domain by a pencil argument (DESIGN.md), sampled here, not proved in Coq.",
+         "DESIGN.md section 5, C01"),
+ "C02": ("Coq proof: exact models = third-order recurrence for every tick count (induction) + correspondence",
+         "Theorems C02_exact_dist / C02_exact_rate / C02_zero_jerk: for all integers and every T>=1 the exact models of move_dist_t3 and rate_t3 equal the tick-by-tick third-order "
+         "recurrence incl. the three-tick clear rule; zero jerk coincides with move_dist_lt. Correspondence with ebb_calc.py over the firmware-valid domain under varying mpmath precision.",
+         NOTE_COMMON + "The accumulated rounding error of the jerk/6 path staying below 1/2 before round() is sampled, not proved.",
+         "DESIGN.md section 5, C02"),
+ "C11": ("Coq proof (field/lra over Q) of the SVG equations for the numeric core + kernel-evaluated parse sweep + bit-exact float correspondence",
+         "Theorem C11_core: for all positive sizes and every alignment x meet/slice the exact-layer result satisfies the SVG 1.1 preserveAspectRatio equations; C11_valid ties the "
+         "string layer to the core; C11_parse_sweep decides 8100 case/separator/defer spellings in the kernel; identity and no-raise theorems. The same model with round-to-nearest-even "
+         "after every operation is compared bit for bit with plot_utils.vb_scale, and outputs are judged against the exact answer within 1e-9.",
+         NOTE_COMMON + "Float rounding is modelled by Base/Rnd.v (executed, not proved equal to IEEE 754); CPython float(str) assumed correctly rounded.",
+         "DESIGN.md section 5, C11"),
+ "C12": ("Coq proof: one factor table, round trips, parser theorem over all numerals/whitespace + bit-exact float correspondence",
+         "Theorems: the four conversion tables equal one SVG factor table (96 px/in), round trips, px = 96 x in, percentages of the supplied reference, None on unparsable text; "
+         "C12_parse holds for every numeral ending in a digit or dot, every recognised suffix and any surrounding whitespace. The rnd53 execution of the same model is compared bit for bit "
+         "with plot_utils on generated and malformed strings.",
+         NOTE_COMMON + "Numeral -> value is the modelled decimal grammar (inf/nan/underscore literals are outside it); float rounding executed by Base/Rnd.v.",
+         "DESIGN.md section 5, C12"),
+ "C14": ("Coq proof: query = brute force for all box lists (induction on fuel = size) + exact-rational correspondence",
+         "Theorem C14_query_eq_brute: for every list of valid boxes and every query the model of Index(...).intersection returns exactly the ids whose box overlaps the query; "
+         "C14_terminates: the recursion depth is bounded by the number of boxes (fuel-irrelevance); C14_strict_refuted: the constructor as found (strict tests) violated the property "
+         "(repaired in /repo e004255). Model tied to rtree.py by running both on Fractions; float runs are judged by brute force.",
+         NOTE_COMMON, "DESIGN.md section 5, C14"),
+ "C17": ("Coq proof: discrete convexity argument over Z for all integers and all T + correspondence",
+         "Theorems C17_is_a_tick, C17_ends, C17_within_jerk, C17_limit: for all integers and every T>=1 the exact model of max_rate_t3 reports the absolute rate of some tick 1..T, "
+         "at least both end rates, and every tick's absolute rate is within |jerk| of it. Correspondence with ebb_calc.max_rate_t3 on vertex-boundary families.",
+         NOTE_COMMON + "The float quotient t_mid classifying like the rational one is sampled, not proved; the O(1) peak used to judge non-corresponding outputs is not proved to be the peak.",
+         "DESIGN.md section 5, C17"),
  "C18": ("Coq proof (lra over Q) on a hand model + exact-rational correspondence with /repo",
          "Theorems for all rationals: each helper returns the clamp of the value (value inside, nearer bound outside), flags exactly the outliers "
          "(by more than the tolerance for the tolerant one), and the 2-D test equals the tolerant checker per coordinate. The hand model is tied to "
          "plot_utils.py on every run by executing both on the same exact rational inputs (the code is duck-typed and runs on Fractions).",
-         "Trusted: Coq kernel + vm_compute; the hand model (checked by correspondence each run, sampled); python Fraction comparison semantics; harness. "
-         "Float rounding inside comparisons is outside the model (floats are converted exactly).",
+         NOTE_COMMON + "Float rounding inside comparisons is outside the model (floats are converted exactly).",
          "DESIGN.md section 5, C18"),
+ "C20": ("Coq proof: escape = per-character map, decode round trip, hms arithmetic + correspondence incl. lxml as reference parser",
+         "Theorems: xml_escape is a per-character map, leaves no raw special, every & starts an entity, and an XML parser (Spec/Xml.v, validated against lxml each run) reads the escaped text "
+         "back as the original in content (no CR) and in attributes (no TAB/LF/CR); the statement without those side conditions is refuted (known finding C20-D10). format_hms: for every "
+         "rational d >= 10 the fields encode round-half-even(d) with minutes/seconds in 0..59 and the form chosen by the rounded value.",
+         NOTE_COMMON + "lxml/libxml2 is the reference parser; CPython round()/'%.3f' assumed correctly rounded.",
+         "DESIGN.md section 5, C20"),
 }
 REASON_PENDING = "check not built yet in this revision (work in progress; see DESIGN.md section 5 for the planned theorem and tie)"
 
